@@ -63,7 +63,7 @@ def tying_helper(F, cond):
 def run(F, rep, tier):
     rep.explanation = ("Workspace keeps one list and two indexes of the stored models plus the evaluator map. Static rules over the HIR of every Workspace method: "
                        "the three indexes are mutated together on the same paths, all keys of one operation derive from one Definitions object, every mutating path "
-                       "invalidates the evaluators, deploy's per-model error arm falls through. The history property itself (all operation sequences) is not decided.")
+                       "invalidates the evaluators, deploy's per-model error arm falls through. The history property is decided for bounded histories by folding the methods on records of the workspace state (R17.10).")
     r1 = rep.rule("R17.1", "every method that inserts into / removes from / clears one of the three indexes does so for all three on the same path")
     r2 = rep.rule("R17.2", "within one operation all index keys derive from one Definitions object (not from independent parameters)")
     r3 = rep.rule("R17.3", "every path that mutates an index also reaches clear_model_evaluators; deploy starts from an empty evaluator map")
@@ -176,6 +176,8 @@ def run(F, rep, tier):
     rep.floor(r1, "index-mutating methods", nmut, 4)
     all_or_nothing_rule(F, rep, index_fields, fields)
     per_model_loop_rule(F, rep, methods)
+    from props import c17_fold
+    c17_fold.run(F, rep, tier)
     stored_evaluator_rule(F, rep, methods, ev_fields)
     r8 = rep.rule("R17.8", "Workspace operations are called with their arguments in parameter order (no `remove(name, namespace)` for `remove(namespace, name)`)")
     targets = set(methods)
